@@ -157,6 +157,10 @@ func runC04(c *Ctx) {
 	if eu := c.P.LangFunc("(*Evaluator).evalUnaryExpr"); eu != nil {
 		c.shared("R11", "C09/R5", "++ / -- on a copy (a for-in variable) does not reach the document: numbers are never updated in place, the new value is assigned through evalAssignment", nil, func(s *Ctx) { incdecTable(s, "R5", eu) })
 	}
+	c.shared("R12", "C15/R2", "a method called on a copy of a document array does not write into the backing array the document still covers: pop and popfirst only re-slice, push appends", keyHas("array.pop", "array.push"), func(s *Ctx) { c15R2(s, nativeMethods(s.P)) })
+	if es := c.P.LangFunc("(*Evaluator).evalStatement"); es != nil {
+		c.shared("R13", "C07/R7", "a for-in loop variable is a copy in a cell of its own: assigning to it, or reusing its name afterwards, does not write into the document", keyHas("for-in ", "binding-before-body"), func(s *Ctx) { c07ForIn(s, es) })
+	}
 	c.shared("R9", "C09/R3", "a program that does not assign to the document leaves it as read: a copied null is a plain null (it does not keep the link to the object it was read from, through which a later assignment to the copy would create a member in the document)", keyHas("copy ValueNil", "copy-on-insert"), c09R3)
 	c.note("R6 encoder-output-unmodified: GetRootJson returns exactly string(json.MarshalIndent(ToGoValue(root), \"\", \"  \")) and json(v) exactly that of its argument: no text is produced or rewritten outside encoding/json (a hand-written fast path or a post-processing of the encoder's text is where escaping goes wrong).")
 	c.checkArm("R6", "GetRootJson", p.LangFunc("(*Evaluator).GetRootJson"), armSpec{
